@@ -28,6 +28,9 @@ Open Scope N_scope."""
 TIMEOUT = 180  # seconds a driver waits for a worker before declaring the harness stuck (HARNESS ERROR, never a verdict)
 
 
+CHECK_DNAME = [True]     # switched off while calls run concurrently below operation level (the two shared writes of set_backend interleave)
+
+
 class Boom(Exception):
     """the exception raised inside a context body for an exceptional exit"""
 
@@ -130,6 +133,21 @@ class Mgr:
         self.code = {v: k for k, v in self.names.items()}
         C_ = type("C_", (Base,), {self.reg_name: property(nothing)}, backend_name=self.names[6])
         self.reg_obj = C_()                                     # Obj 4: its class provides nothing under reg_name
+        # Obj 5: an instance of a subclass of the FIRST harness class (two levels below the stock class): register model, class 7
+        self.names[7] = "bkd" if not tenalg else "tkd"
+        self.code = {v: k for k, v in self.names.items()}
+        D_ = type("D_", (A_,), {}, backend_name=self.names[7])
+        self.deep_obj = D_()
+        # Obj 20: an instance of the bare backend class (Backend() / TenalgBackend()): passes the isinstance test of
+        # set_backend but has no backend_name (Model/BackendAbort.v `nl20`); used by the abort groups only
+        try:
+            if not tenalg:
+                from tensorly.backend.core import Backend as Bare
+            else:
+                from tensorly.tenalg.base_tenalg import TenalgBackend as Bare
+            self.nameless = Bare()
+        except Exception:  # noqa
+            self.nameless = None
         self.classes = {A_: self.harness_names[0], B_: self.harness_names[1]}
         self.pool = [A_(), B_(), A_(), B_()]                    # Obj 0..3
         self.foreign = [X_(), None]                             # Foreign 0..1
@@ -191,6 +209,10 @@ class Mgr:
         if kind == "n":
             return self.names[k]
         if kind == "o":
+            if k == 20:
+                return self.nameless
+            if k == 5:
+                return self.deep_obj
             return self.pool[k] if k < len(self.pool) else self.reg_obj
         return self.foreign[k]
 
@@ -205,6 +227,10 @@ class Mgr:
         for k, p in enumerate(self.pool):
             if obj is p:
                 return ("o", k)
+        if obj is not None and obj is getattr(self, "nameless", None):
+            return ("o", 20)
+        if obj is getattr(self, "deep_obj", None):
+            return ("o", 5)
         if id(obj) in self.marked and self.marked[id(obj)][1] is obj:
             return ("n", self.marked[id(obj)][0])
         if type(obj) in self.classes:
@@ -292,6 +318,11 @@ class Mgr:
             routes.append(("current_backend()", d3))
         if d is None and (d3[0] != "?" or getattr(cb, "backend_name", None) != q):
             routes.append(("current_backend()", d3))
+        if CHECK_DNAME[0]:
+            # C17_default_name_tracks_shared: between whole operations cls._default_backend is the name of cls._backend
+            dn, sh = getattr(self.cls, "_default_backend", None), getattr(self.cls, "_backend", None)
+            if dn != getattr(sh, "backend_name", None):
+                routes.append(("_default_backend vs _backend.backend_name", (dn, getattr(sh, "backend_name", None))))
         if not self.tenalg:
             a1 = self.mod.backend_name                      # dispatched attribute, via tensorly.__getattr__
             a2 = m.backend_name
@@ -419,8 +450,11 @@ class Worker:
     def reply(self, res):
         """outcome of an operation + what THIS thread observes right after it (saves one hand-over per step);
         the acting thread also sweeps ALL dispatched names when it is asked to (last operation of a history)"""
-        self.r.put((res, observe_mode(self.mode, self.full)))
+        self.r.put((res, self.observe(self.full)))
         self.full = False
+
+    def observe(self, full=False):
+        return observe_mode(self.mode, full)
 
     def body(self, depth):
         """serve commands at context depth `depth`; returns 'normal' (leave the innermost context normally)
@@ -429,7 +463,7 @@ class Worker:
             cmd = self.q.get()
             k = cmd[0]
             if k == "obs":
-                self.r.put(observe_mode(self.mode))
+                self.r.put(self.observe())
             elif k == "full":
                 self.full = True
             elif k == "set":
@@ -797,6 +831,300 @@ def predicates_micro(m, scenario, result):
     return fails
 
 
+# ----------------------------------------------------------------------------- calls that do not run to completion
+# Model/BackendAbort.v.  A scenario = (m, setup, op, kind, k, post): atomic set-up operations, ONE call `op` that
+#   kind 0: runs by itself; selectors may name the NAMELESS instance ("o", 20) = Backend() / TenalgBackend(), for which
+#           `backend.backend_name` raises AttributeError after the thread-local slot was written (exec_nl);
+#   kind 1: is interrupted: a trace function raises Interrupt when the k-th source line of tensorly/backend/__init__.py /
+#           tensorly/tenalg/__init__.py inside the call is about to execute (abort: some prefix of its acts);
+#   kind 2: the same at BYTECODE granularity (f_trace_opcodes): before the k-th bytecode of those files inside the call;
+# then atomic follow-up operations.  After the call and after every follow-up EVERY thread reports get_backend() (62: it
+# raised AttributeError) and the identity of current_backend().
+class Interrupt(Exception):
+    """raised from the trace function inside set_backend / backend_context (stands for any asynchronous exception)"""
+
+
+class Interrupter:
+    """same interface as Stepper (start / finish), so that Worker.body can run a call under it"""
+
+    def __init__(self, k, files, opcodes=False):
+        self.k, self.files, self.n, self.fired, self.opcodes = k, files, 0, False, opcodes
+
+    def tracer(self):
+        unit = "opcode" if self.opcodes else "line"
+
+        def local(frame, event, arg):
+            if event == unit and not self.fired:
+                if self.n == self.k:
+                    self.fired = True
+                    raise Interrupt()
+                self.n += 1
+            return local
+
+        def glob(frame, event, arg):
+            if self.fired or frame.f_code.co_filename not in self.files:
+                return None
+            if self.opcodes:
+                frame.f_trace_opcodes = True
+            return local
+        return glob
+
+    def start(self, tid):
+        sys.settrace(self.tracer())
+
+    def finish(self, tid):
+        sys.settrace(None)
+
+
+def aobserve(m):
+    M = Mgr.get(m)
+    try:
+        q = M.code.get(M.mgr.get_backend(), 63)
+    except AttributeError:
+        q = 62
+    return (q, M.token(M.mgr.current_backend()))
+
+
+class AbortWorker(Worker):
+    def observe(self, full=False):
+        return aobserve(self.mode)
+
+
+def drive_abort(sc, nthreads=3):
+    """returns (outcome of the call, [seen per thread], [(outcome, [seen per thread]) per follow-up], fired?)"""
+    m, setup, op, kind, k, post = sc
+    workers = {}
+    for t in range(1, nthreads):
+        w = AbortWorker(m, t)
+        w.start()
+        workers[t] = w
+
+    def observe_all(actor=None, own=None):
+        return [own if t == actor else (aobserve(m) if t == 0 else workers[t].call(("obs",))) for t in range(nthreads)]
+
+    def cmd_of(o, st=None):
+        extra = (st,) if st is not None else ()
+        if o[0] in ("set", "enter"):
+            return (o[0], o[2], o[3], o[4]) + extra
+        return ("exit", o[3]) + extra
+
+    def atomic(o, st=None):
+        res = workers[o[1]].call(cmd_of(o, st))
+        if isinstance(res, tuple) and res and res[0] == "harness-error":
+            raise HarnessStuck(str(res))
+        return res
+    try:
+        for o in setup:
+            atomic(o)
+        st = Interrupter(k, traced_files(), opcodes=(kind == 2)) if kind in (1, 2) else None
+        res, own = atomic(op, st)
+        first = (res, observe_all(op[1], own))
+        steps = []
+        for o in post:
+            res, own = atomic(o)
+            steps.append((res, observe_all(o[1], own)))
+        return (first[0], first[1], steps, bool(st and st.fired))
+    finally:
+        for w in workers.values():
+            w.q.put(("stop",))
+        for w in workers.values():
+            if w.thread is not None:
+                w.thread.join(timeout=TIMEOUT)
+
+
+NAMELESS = ("o", 20)
+ABORT_ENTRY = "BackendManager.set_backend / backend_context (calls that raise after a write or are interrupted; both managers)"
+ABORT_LINES = 13        # a context entry by name executes 12 traced lines; position 12+ = the interruption never comes
+ABORT_OPCODES = 110     # ... and fewer than 110 traced bytecodes
+
+
+def systematic_abort(m):
+    """every call shape x every interruption line; every call shape with the nameless instance"""
+    A, B, N1 = ("o", 0), ("o", 1), ("n", 1)
+    out = []
+    shapes = []
+    for sel in (A, N1):
+        for loc in (False, True):
+            shapes.append(((), ("set", 1, m, sel, loc)))
+            shapes.append(((), ("enter", 1, m, sel, loc)))
+            shapes.append(((("set", 1, m, B, True),), ("enter", 1, m, sel, loc)))
+    for loc in (False, True):
+        for exn in (False, True):
+            shapes.append(((("enter", 1, m, A, loc),), ("exit", 1, m, exn)))
+            shapes.append(((("set", 2, m, B, False), ("enter", 1, m, A, loc), ("set", 2, m, ("o", 2), False)), ("exit", 1, m, exn)))
+    for setup, op in shapes:
+        for k in range(ABORT_LINES):
+            post = (("exit", 1, m, False), ("set", 2, m, ("o", 3), True), ("enter", 1, m, B, False), ("exit", 1, m, False))
+            out.append((m, tuple(setup), op, 1, k, post))
+    canon = [((), ("set", 1, m, A, False)), ((), ("set", 1, m, N1, True)), ((), ("enter", 1, m, A, False)),
+             ((("set", 1, m, B, True),), ("enter", 1, m, N1, True)),
+             ((("enter", 1, m, A, False),), ("exit", 1, m, False)), ((("enter", 1, m, A, True),), ("exit", 1, m, True)),
+             ((("set", 2, m, B, False), ("enter", 1, m, A, False), ("set", 2, m, ("o", 2), False)), ("exit", 1, m, False))]
+    for setup, op in canon:
+        for k in range(0, ABORT_OPCODES, 2):
+            out.append((m, tuple(setup), op, 2, k, (("exit", 1, m, False), ("set", 2, m, ("o", 3), True), ("enter", 1, m, B, False))))
+    for loc in (False, True):
+        out.append((m, (), ("set", 1, m, NAMELESS, loc), 0, 0,
+                    (("enter", 1, m, A, False), ("exit", 1, m, False), ("set", 1, m, B, loc))))
+        out.append((m, (), ("enter", 1, m, NAMELESS, loc), 0, 0,
+                    (("exit", 1, m, False), ("set", 2, m, A, False), ("enter", 2, m, NAMELESS, loc), ("exit", 2, m, True))))
+        out.append((m, (("set", 2, m, B, True),), ("set", 1, m, NAMELESS, True), 0, 0,
+                    (("enter", 1, m, A, loc), ("exit", 1, m, False), ("exit", 1, m, False), ("set", 1, m, A, False))))
+    return out
+
+
+def random_abort(rng, m):
+    M = Mgr.get(m)
+    valid = [("o", k) for k in range(len(M.pool))] + [("n", k) for k in M.names if M.sel_valid(("n", k))]
+    bad = [("n", k) for k in M.names if not M.sel_valid(("n", k))] + [("f", 0)]
+    kind = rng.choice([0, 1, 2])
+
+    def one(t, depth, nameless):
+        r = rng.random()
+        if depth[t] and r < 0.35:
+            depth[t] -= 1
+            return ("exit", t, m, rng.random() < 0.4)
+        s = NAMELESS if (nameless and rng.random() < 0.3) else (rng.choice(bad) if rng.random() < 0.1 else rng.choice(valid))
+        return ("enter" if r < 0.7 else "set", t, m, s, rng.random() < 0.5)
+    depth = {1: 0, 2: 0}
+    setup = []
+    for _ in range(rng.choice([0, 1, 2, 3])):
+        o = one(rng.choice([1, 2]), depth, False)
+        if o[0] == "enter" and M.sel_valid(o[3]):
+            depth[o[1]] += 1
+        setup.append(o)
+    # from here on the depth of a thread is not known statically (a raising / interrupted entry opens no context): exits
+    # without a context are answered "noctx" by harness and model alike
+    d2 = {1: 1, 2: 1}
+    op = one(1, dict(d2), kind == 0)
+    post = [one(rng.choice([1, 2]), dict(d2), kind == 0) for _ in range(rng.randint(0, 4))]
+    return (m, tuple(setup), op, kind, rng.randint(0, ABORT_LINES) if kind == 1 else (rng.randint(0, ABORT_OPCODES) if kind == 2 else 0), tuple(post))
+
+
+def name_first(manager_cls):
+    """does set_backend read `.backend_name` BEFORE its first write of the selection state?  (the tree: no - it is read
+    inside `cls._default_backend = backend.backend_name`, after the thread-local slot was written; the candidate repair
+    build/fix_candidates/C17_nameless_instance.diff: yes)  Passed to the model as a parameter (Corr/C17.v acase nf)."""
+    fn = _fn_ast(manager_cls.set_backend.__func__)
+    for st in fn.body:
+        if isinstance(st, ast.Expr) and isinstance(st.value, ast.Constant):
+            continue
+        if isinstance(st, ast.If) and any(isinstance(n, ast.Call) and getattr(n.func, "id", None) == "isinstance" for n in ast.walk(st.test)):
+            continue
+        for n in ast.walk(st):
+            tg = n.targets if isinstance(n, ast.Assign) else ([n.target] if isinstance(n, (ast.AugAssign, ast.AnnAssign)) else [])
+            for x in tg:
+                ch = _attr_chain(x) or []
+                if ch[:2] == ["cls", "_THREAD_LOCAL_DATA"] or ch == ["cls", "_backend"]:
+                    return False
+        if any(isinstance(n, ast.Attribute) and n.attr == "backend_name" and isinstance(n.ctx, ast.Load) for n in ast.walk(st)):
+            return True
+    return False
+
+
+def aseen_digits(obs):
+    ds = []
+    for (q, tok) in obs:
+        ds += [q if 0 <= q < 64 else 63, tok_digit(tok)]
+    return ds
+
+
+def encode_abort(sc, result):
+    """digit stream decoded by Corr/C17.v `decode_a` (leading digit 13)"""
+    m, setup, op, kind, k, post = sc
+    res, obs, steps, fired = result
+    M = Mgr.get(m)
+    if getattr(M, "_name_first", None) is None:
+        try:
+            M._name_first = int(name_first(M.cls))
+        except Exception:  # noqa
+            M._name_first = 0
+    ds = [13, m, len(obs), 1, M._name_first, len(setup)]
+    for o in setup:
+        ds += op_digits(o)
+    ds += op_digits(op) + [min(kind, 1), OUTCOME.get(res, 3)] + aseen_digits(obs) + [len(post)]
+    for o, (r, ob) in zip(post, steps):
+        ds += op_digits(o) + [OUTCOME.get(r, 3)] + aseen_digits(ob)
+    assert all(0 <= d < 64 for d in ds), ds
+    return ds
+
+
+def predicates_abort(sc, result):
+    """model-free transcriptions: C17_abort_others_untouched / C17_raising_selection_partial (nobody else is affected by a
+    call that raised or was interrupted before its shared write; a thread holding its own selection never is) and the
+    rejection clause itself (a call that RAISED by itself must leave the caller's backend unchanged too: C17_rejection -
+    refuted for the nameless instance, C17_rejected_nameless_refuted)"""
+    m, setup, op, kind, k, post = sc
+    M = Mgr.get(m)
+    res, obs, steps, fired = result
+    fails = []
+    # reference views before the call: replay the set-up with the plain rules (set-up operations are valid or rejected whole)
+    own = {0: ("n", 0)}
+    default = ("n", 0)
+    stack = {}
+    for o in setup:
+        t = o[1]
+        cur = own.get(t, default)
+        if o[0] in ("set", "enter") and M.sel_valid(o[3]):
+            if o[0] == "enter":
+                stack.setdefault(t, []).append((cur, o[4]))
+            own[t] = o[3]
+            if not o[4]:
+                default = o[3]
+        elif o[0] == "exit" and stack.get(t):
+            old, loc = stack[t].pop()
+            own[t] = old
+            if not loc:
+                default = old
+
+    def shows(seen, tok):
+        return seen[1] == tok
+    t = op[1]
+    raised = res in ("rejected", "exitfailed")
+    for u in range(len(obs)):
+        if u != t and u in own and not shows(obs[u], own[u]):
+            fails.append(("C17_abort_others_untouched", -1, f"thread {u} holds its own selection {own[u]} but observes {obs[u]} after thread {t}'s "
+                          f"{'interrupted' if kind else 'raising'} {op[0]}"))
+    if kind == 0 and raised:
+        before = own.get(t, default)
+        for u in range(len(obs)):
+            if u != t and u not in own and not shows(obs[u], default):
+                fails.append(("C17_raising_selection_partial", -1, f"thread {u} (no selection of its own) observes {obs[u]} after thread {t}'s "
+                              f"{op[0]} raised; the shared default was {default}"))
+        if not shows(obs[t], before):
+            fails.append(("C17_rejection", -1, f"thread {t}: {op[0]}({op[3] if op[0] != 'exit' else ''}"
+                          f"{', local_threadsafe=True' if op[0] != 'exit' and op[4] else ''}) raised, yet the thread's backend changed from "
+                          f"{before} to {obs[t]} (get_backend() code 62 = it raises AttributeError now)"))
+    return fails
+
+
+def abort_to_json(sc):
+    m, setup, op, kind, k, post = sc
+    return {"manager": m, "setup": hist_to_json(setup), "op": hist_to_json([op])[0], "kind": kind, "line": k, "post": hist_to_json(post)}
+
+
+def abort_from_json(j):
+    return (int(j["manager"]), hist_from_json(j["setup"]), hist_from_json([j["op"]])[0], int(j["kind"]), int(j["line"]),
+            hist_from_json(j["post"]))
+
+
+def _abort_job(m, scenarios):
+    Ms = Mgr.both()
+    out = []
+    for sc in scenarios:
+        for X in Ms:
+            X.reset()
+        r = drive_abort(sc)
+        fails = predicates_abort(sc, r)
+        op = sc[2]
+        out.append((pack(encode_abort(sc, r)), fails[0] if fails else None,
+                    [f"{'tenalg' if m else 'backend'}.{'interrupted' if sc[3] else 'by-itself'} {op[0]}"
+                     f"{'(nameless)' if op[0] != 'exit' and op[3] == NAMELESS else ''}:{r[0]}{'/fired' if r[3] else ''}"]))
+    for X in Ms:
+        X.reset()
+    return out, None
+
+
 # ----------------------------------------------------------------------------- programs of acts from the source (ast)
 # The micro-step programs of Model/Backend.v are a reading of set_backend / backend_context / current_backend.  Here the
 # CURRENT source is translated (ast) into the same vocabulary of acts; Corr/C17.v (leading digit 4) checks that the
@@ -842,7 +1170,23 @@ def set_program(fn, local, src_name, from_reg):
             if isinstance(st, ast.If):
                 t = st.test
                 if any(isinstance(n, ast.Call) and getattr(n.func, "id", None) == "isinstance" for n in ast.walk(t)):
-                    continue                               # the resolution of names: before any write (checked dynamically)
+                    # the resolution of names (cache look-up, load_backend): it must come before any write and must not
+                    # touch the selection state itself - fail closed otherwise
+                    if acts:
+                        raise Unsupported("the isinstance / load block comes after a write")
+                    for n in ast.walk(st):
+                        tg = []
+                        if isinstance(n, (ast.Assign, ast.Delete)):
+                            tg = n.targets
+                        elif isinstance(n, (ast.AugAssign, ast.AnnAssign)):
+                            tg = [n.target]
+                        for x in tg:
+                            ch = _attr_chain(x) or []
+                            if ch[:2] == ["cls", "_THREAD_LOCAL_DATA"] or ch in (["cls", "_backend"], ["cls", "_default_backend"]):
+                                raise Unsupported("the isinstance / load block writes " + ast.unparse(x))
+                        if isinstance(n, ast.Call) and getattr(n.func, "id", None) in ("setattr", "delattr"):
+                            raise Unsupported("the isinstance / load block calls " + ast.unparse(n)[:60])
+                    continue
                 neg = isinstance(t, ast.UnaryOp) and isinstance(t.op, ast.Not)
                 core = t.operand if neg else t
                 if isinstance(core, ast.Name) and core.id == "local_threadsafe":
@@ -853,6 +1197,10 @@ def set_program(fn, local, src_name, from_reg):
             if isinstance(st, ast.Assign) and len(st.targets) == 1:
                 ch = _attr_chain(st.targets[0])
                 val = st.value
+                if isinstance(st.targets[0], ast.Name) and st.targets[0].id not in (src_name, "cls", "local_threadsafe") \
+                        and not any(isinstance(n, ast.Name) and n.id == "cls" for n in ast.walk(val)) \
+                        and not any(isinstance(n, ast.Call) for n in ast.walk(val)):
+                    continue                               # a local name computed from the argument (e.g. its backend_name): private, no act
                 if ch == ["cls", "_THREAD_LOCAL_DATA", "backend"]:
                     if isinstance(val, ast.Name) and val.id == src_name:
                         acts.append(K["tls"]); continue
@@ -2306,7 +2654,7 @@ def drive_reg(m, history, nthreads=3):
 
 def random_rhistory(rng, m, maxlen):
     M = Mgr.get(m)
-    valid = [("o", k) for k in range(5)] + [("n", k) for k in M.names if M.sel_valid(("n", k))]
+    valid = [("o", k) for k in range(6)] + [("n", k) for k in M.names if M.sel_valid(("n", k))]
     depth = {1: 0, 2: 0}
     h, v = [], 0
     for _ in range(rng.randint(3, maxlen)):
@@ -2368,21 +2716,27 @@ def predicates_reg(m, nthreads, history, outs):
     stack = {t: [] for t in range(nthreads)}
     stock_roots = set(M.stock)
     parent = {c: 0 for c in list(M.harness_names) + [6]}
+    parent[7] = M.harness_names[0]               # class 7 (Obj 5) -> first harness class -> stock class: two levels
     table = {c: 0 for c in stock_roots}          # class -> implementation; absent = inherit; 6 -> missing
     table[6] = None
 
     def cls_of(sel):
         if sel[0] == "n":
             return sel[1]
-        return 6 if sel[1] == 4 else M.harness_names[sel[1] % 2]
+        return 6 if sel[1] == 4 else (7 if sel[1] == 5 else M.harness_names[sel[1] % 2])
 
     def cur(t):
         return own[t] if own[t] is not None else default
 
     def lookup(c):
-        if c in table:
-            return table[c]
-        return table.get(parent.get(c)) if parent.get(c) in table else None
+        # walk up the class chain while the class inherits the name (C17_registered_inherited_deep: any depth)
+        for _ in range(8):
+            if c in table:
+                return table[c]
+            if c not in parent:
+                return None
+            c = parent[c]
+        return None
     for i, (op, res) in enumerate(zip(history, outs)):
         k, t = op[0], op[1]
         if k in ("set", "enter"):
@@ -2453,6 +2807,42 @@ def all_names(M):
     return M._allnames, M._alltab
 
 
+def mark_all(M):
+    """sweep jobs only: EVERY dispatched name becomes self-identifying on EVERY known backend object (instance dict entry:
+    a closure returning ("c17", object) for a function, that pair for an attribute), so that also a bare library function
+    that all backends share (about 60% of tensorly.backend's names) reveals which OBJECT served a call or was frozen by
+    use_static_dispatch.  Returns what was added (removed again by unmark_all)."""
+    names, tab = all_names(M)
+    for k in M.harness_names:                      # the instances load_backend caches for the harness names
+        try:
+            if M.names_registered and M.names[k] not in M.cls._loaded_backends:
+                M.mgr.load_backend(M.names[k])
+        except Exception:  # noqa
+            pass
+    objs = list(M.pool) + [obj for (_, obj) in M.marked.values()]
+    objs += [o for o in M.cls._loaded_backends.values() if type(o) in M.classes and not any(o is x for x in objs)]
+    added = []
+    for obj in objs:
+        for n, nm in enumerate(names):
+            if nm == "backend_name" or nm in obj.__dict__:
+                continue
+            obj.__dict__[nm] = (lambda o: (lambda *a, **k: ("c17", o)))(obj) if tab[n] % 2 == 1 else ("c17", obj)
+            added.append((obj, nm))
+    M._all_marked = objs
+    M._sweep_marked = True        # from now on (this process) a sweep look-up served by a stock object identifies it too
+    return added
+
+
+def unmark_all(M, added):
+    for obj, nm in added:
+        obj.__dict__.pop(nm, None)
+    M._all_marked = None
+
+
+def _c17_token(M, r):
+    return M.token(r[1]) if isinstance(r, tuple) and len(r) == 2 and r[0] == "c17" else None
+
+
 def lstatic(M):
     """use_static_dispatch() under attribute-access logging: ('fetched', token of the object EVERY name was fetched from | None
     when nothing was logged = a stock object)"""
@@ -2481,7 +2871,7 @@ def identify_static(M, nm, v):
     me = getattr(v, "__self__", None)
     if me is not None and M.token(me)[0] != "?":
         return M.token(me)
-    cands = list(M.pool) + [obj for (_, obj) in M.marked.values()]
+    cands = list(getattr(M, "_all_marked", None) or (list(M.pool) + [obj for (_, obj) in M.marked.values()]))
     toks = set()
     for o in cands:
         try:
@@ -2519,15 +2909,20 @@ def lcall(M, op):
                 v = getattr(M.top_obj if not M.tenalg else M.mgr, nm)
         except AttributeError:
             return ("err",)
+        said = None
         if isfun and callable(v):
             try:
-                v()                                   # the look-up of the implementation happens before the call fails
+                said = _c17_token(M, v())             # the look-up of the implementation happens before the call fails
             except Exception:  # noqa
                 pass
+        elif not isfun:
+            said = _c17_token(M, v)
     finally:
         _ACCESS.log = None
     hit = [o for (o, n) in log if n == nm]
-    return ("ran" if isfun else "val", M.token(hit[0]) if hit else None)
+    if hit and said is not None and M.token(hit[0]) != said:
+        return ("ran" if isfun else "val", ("?", "logged object and self-identifying implementation disagree"))
+    return ("ran" if isfun else "val", M.token(hit[0]) if hit else said)
 
 
 def sweep_history(rng, m):
@@ -2599,8 +2994,11 @@ def predicates_sweep(m, nthreads, history, outs):
     fails = []
     frozen = None
 
-    def shows(res, tok):
-        return res[1] == tok or (res[1] is None and tok[0] == "n" and tok[1] in M.stock)
+    strict = bool(getattr(M, "_sweep_marked", False))     # every implementation identifies its object: "unidentified" is no answer
+
+    def shows(res, tok, nm=None):
+        return res[1] == tok or (res[1] is None and tok[0] == "n" and tok[1] in M.stock
+                                 and not (strict and res[0] in ("ran", "val") and nm != "backend_name"))
     for i, (op, res) in enumerate(zip(history, outs)):
         k, t = op[0], op[1]
         cur = own[t] if own[t] is not None else default
@@ -2612,7 +3010,11 @@ def predicates_sweep(m, nthreads, history, outs):
             continue
         if k == "lcall" and frozen is not None and not (op[3] == 1 and tab[op[4]] % 2 == 1 and tab[op[4]] >= 4):
             isfun = tab[op[4]] % 2 == 1
-            if res[0] != "unk" and not (res[0] == ("ran" if isfun else "val") and shows(res, frozen)):
+            if res[0] == "unk" and strict and names[op[4]] != "backend_name":
+                fails.append(("C17_static_dispatch_frozen" if isfun else "C17_static_dispatch_frozen_attributes", i,
+                              f"static dispatch frozen on {frozen}: what thread {t} finds under {names[op[4]]!r} through the {ROUTES[op[3]]} belongs to no known backend object"))
+                continue
+            if res[0] != "unk" and not (res[0] == ("ran" if isfun else "val") and shows(res, frozen, names[op[4]])):
                 fails.append(("C17_static_dispatch_frozen" if isfun else "C17_static_dispatch_frozen_attributes", i,
                               f"static dispatch frozen on {frozen}: thread {t} reached {names[op[4]]!r} through the {ROUTES[op[3]]}: served by {res}"))
             continue
@@ -2629,7 +3031,7 @@ def predicates_sweep(m, nthreads, history, outs):
                 default = old
         elif k == "lcall":
             isfun = tab[op[4]] % 2 == 1
-            ok = res[0] == ("ran" if isfun else "val") and (res[1] == cur or (res[1] is None and (cur[0] == "n" and cur[1] in M.stock)))
+            ok = res[0] == ("ran" if isfun else "val") and (res[1] == cur or (res[1] is None and (cur[0] == "n" and cur[1] in M.stock) and not (strict and names[op[4]] != "backend_name")))
             if cur[0] == "n" and cur[1] not in M.stock and res[0] != "err" and res[1] is not None and res[1][0] == "n":
                 ok = res[1] == cur
             if not ok:
@@ -2682,7 +3084,11 @@ def _sweep_job(m, histories):
     for h in histories:
         for X in Ms:
             X.reset()
-        outs = drive_sweep(m, h)
+        added = mark_all(Ms[m])
+        try:
+            outs = drive_sweep(m, h)
+        finally:
+            unmark_all(Ms[m], added)
         fails = predicates_sweep(m, 4, h, outs)
         out.append((pack(encode_sweep(m, 4, h, outs)), fails[0] if fails else None,
                     [f"{'tenalg' if m else 'backend'}.sweep-all-names{'-static' if any(o[0] == 'lstatic' for o in h) else ''}:"
@@ -2723,9 +3129,44 @@ def w_eval(M, op, caps):
         return ("ran", ("?", "raised " + repr(e)[:60]))
 
 
+def metadata_mismatches(M):
+    """__module__ / __name__ / __qualname__ / __doc__ / __annotations__ and the signature (minus `self`) of EVERY dispatch closure
+    of the manager must be those of the method it was made with (f.__wrapped__): they come from one and the same object, so
+    C17_closure_metadata_static speaks about all of them (a test; which object __wrapped__ IS, is compared with the model)"""
+    import inspect
+    bad = []
+    for name in dict.fromkeys(getattr(M.cls, "_functions", [])):
+        try:
+            f = getattr(M.mgr, name)
+        except AttributeError:
+            continue
+        w = getattr(f, "__wrapped__", None)
+        if w is None:
+            bad.append((name, "no __wrapped__"))
+            continue
+        for a in ("__module__", "__name__", "__qualname__", "__doc__", "__annotations__"):
+            try:
+                expected = getattr(w, a)
+            except AttributeError:
+                continue
+            if getattr(f, a, None) != expected:
+                bad.append((name, a))
+        try:
+            sw = inspect.signature(w)
+        except (ValueError, TypeError):
+            continue
+        try:
+            if [k for k in sw.parameters if k != "self"] != list(inspect.signature(f).parameters):
+                bad.append((name, "signature"))
+        except (ValueError, TypeError):
+            bad.append((name, "signature unreadable"))
+    return bad
+
+
 def drive_meta(m, history, nthreads=3):
     M = Mgr.get(m)
     caps = []
+    drive_meta.mismatch = []
     M.mgr.use_dynamic_dispatch()                   # the class closures are (re-)made by the main thread on the default backend
     workers = {}
     for t in range(1, nthreads):
@@ -2747,6 +3188,10 @@ def drive_meta(m, history, nthreads=3):
         for w in workers.values():
             if w.thread is not None:
                 w.thread.join(timeout=TIMEOUT)
+        try:
+            drive_meta.mismatch = metadata_mismatches(M)      # the closures as the history left them (re-made by whoever called use_dynamic_dispatch)
+        except Exception as e:  # noqa
+            drive_meta.mismatch = [("metadata probe raised", repr(e)[:80])]
         for X in Mgr.both():
             X.reset()
         M.mgr.use_dynamic_dispatch()
@@ -2861,6 +3306,8 @@ def _meta_job(m, histories):
             X.reset()
         outs = drive_meta(m, h)
         fails = predicates_meta(m, 3, h, outs)
+        if drive_meta.mismatch:
+            fails.append(("C17_closure_metadata_static", len(h) - 1, f"metadata of dispatch closures differs from that of their __wrapped__ method: {drive_meta.mismatch[:6]}"))
         out.append((pack(encode_meta(m, 3, h, outs)), fails[0] if fails else None,
                     [f"{'tenalg' if m else 'backend'}.{op[0]}:{res[0]}" for op, res in zip(h, outs) if op[0].startswith("w")]))
     for X in Ms:
@@ -2882,6 +3329,8 @@ def _pool_job(job):
         return _sweep_job(mode - 14, histories)
     if mode in (16, 17):
         return _meta_job(mode - 16, histories)
+    if mode in (18, 19):
+        return _abort_job(mode - 18, histories)
     if mode in (8, 9):
         return _dispatch_job(mode - 8, histories)
     if mode >= 3 and mode != 7:
@@ -2917,6 +3366,7 @@ def _pool_job(job):
 def _micro_job(m, scenarios):
     Ms = Mgr.both()
     out, nlines = [], 0
+    CHECK_DNAME[0] = False
     for sc in scenarios:
         for M in Ms:
             M.reset()
@@ -2927,6 +3377,7 @@ def _micro_job(m, scenarios):
                     [f"{'tenalg' if m else 'backend'}.concurrent({sc[5] if len(sc) > 5 else 'line'}) {sc[1][0]}|{sc[2][0]}{'|' + sc[6][0] if len(sc) > 6 else ''}:{r[0]}|{r[1]}{'|' + r[5] if len(sc) > 6 else ''}"]))
     for M in Ms:
         M.reset()
+    CHECK_DNAME[0] = True
     return out, None
 
 
@@ -2998,6 +3449,8 @@ def make_groups(tier, rng):
         groups.append((16 + m, False, 3, [random_whistory(rng, m, 12 if quick else 30) for _ in range(100 if quick else 1000)], "closure-metadata"))
         groups.append((14 + m, False, 4, [sweep_history(rng, m) for _ in range(6 if quick else 60)], "sweep-all-names"))
         groups.append((12 + m, False, 3, [random_rhistory(rng, m, 12 if quick else 30) for _ in range(120 if quick else 1500)], "register-backend-method"))
+        # calls that do not run to completion: interrupted at every source line (abort), raising by themselves (nameless instance)
+        groups.append((18 + m, False, 3, systematic_abort(m) + [random_abort(rng, m) for _ in range(150 if quick else 3000)], "interrupted-and-raising-calls"))
     return groups
 
 
@@ -3076,12 +3529,15 @@ def run(chk):
         meta.append(None)
     for g, res in zip(groups, results):
         mode, main_actor, nthreads, hs, tag = g
-        gname = {0: "backend:", 1: "tenalg:", 2: "both:", 3: "backend:", 4: "tenalg:", 7: "both:", 8: "backend:", 9: "tenalg:", 11: "both:", 12: "backend:", 13: "tenalg:", 14: "backend:", 15: "tenalg:", 16: "backend:", 17: "tenalg:"}[mode] + tag
+        gname = {0: "backend:", 1: "tenalg:", 2: "both:", 3: "backend:", 4: "tenalg:", 7: "both:", 8: "backend:", 9: "tenalg:", 11: "both:", 12: "backend:", 13: "tenalg:", 14: "backend:", 15: "tenalg:", 16: "backend:", 17: "tenalg:", 18: "backend:", 19: "tenalg:"}[mode] + tag
         for h, (lit, fail, outs) in zip(hs, res):
             cid = len(cases)
             cases.append(f"({cid}, {lit})")
             meta.append((mode, main_actor, nthreads, h, tag))
-            if mode in (16, 17):
+            if mode in (18, 19):
+                ops = list(h[1]) + [h[2]] + list(h[5])
+                nontrivial = h[3] in (1, 2) or any(o[0] != "exit" and o[3] == NAMELESS for o in ops)
+            elif mode in (16, 17):
                 ops = h
                 nontrivial = any(op[0] == "wdyn" for op in h) and any(op[0] in ("set", "enter") for op in h)
             elif mode in (14, 15):
@@ -3106,7 +3562,7 @@ def run(chk):
             for o in outs:
                 chk.hist("operation", o)
             if fail is not None:
-                found.append((len(h) if mode != 11 else 0, cid, fail))
+                found.append(((len(h) if mode not in (18, 19) else len(h[1]) + len(h[5])) if mode != 11 else 0, cid, fail))
     # shortest failing histories first; every finding carries the prefix of the history up to the failing step
     found.sort()
     for (_, cid, (pred, i, msg)) in found[:60]:
@@ -3114,6 +3570,10 @@ def run(chk):
         if mode == 11:
             gran, k = h[1][i] if i < len(h[1]) else ("line-before-end", 1 + 2 * (i - len(h[1])))
             chk.finding("use_dynamic_dispatch", {"mode": 11, "manager": h[0], "granularity": gran, "stopped_after": k}, msg, pred)
+            continue
+        if mode in (18, 19):
+            chk.finding(ABORT_ENTRY, {"mode": mode, "scenario": abort_to_json(h)},
+                        f"{('a call interrupted before ' + ('source line ' if h[3] == 1 else 'bytecode ') + str(h[4])) if h[3] else 'a call raising by itself'}: {msg}", pred)
             continue
         if mode in (16, 17):
             chk.finding("dispatch_backend_method (closure metadata)", {"mode": mode, "history": dhist_to_json(h[:i + 1])}, f"step {i} ({wop_lit(h[i])}): {msg}", pred)
@@ -3148,16 +3608,20 @@ def run(chk):
             try:
                 progs = source_programs(cls)
             except Unsupported as e:
-                chk.notes.append(f"source programs of {cls.__name__}: shape not understood by the translator, skipped ({e})")
-                chk.hist("group", ["backend:", "tenalg:"][m] + "source-programs-skipped")
+                chk.cov["source_programs_tie"] = f"BROKEN TIE ({cls.__name__}): {e}"
+                chk.notes.append(f"source programs of {cls.__name__}: BROKEN TIE - a source shape the translator does not know ({e}); the micro-step "
+                                 "reduction (C17_micro_atomic_generic) is then NOT tied to the current source, only the executed schedules are")
+                chk.hist("group", ["backend:", "tenalg:"][m] + "source-programs-BROKEN-TIE")
                 continue
+            chk.cov.setdefault("source_programs_tie", "extracted")
             src_ids[len(cases)] = (m, progs)
             cases.append(f"({len(cases)}, {pack([4] + program_digits(progs))})")
             meta.append(None)
             chk.count(key=("source-programs", m), nontrivial=True)
             chk.hist("group", ["backend:", "tenalg:"][m] + "source-programs")
     except Exception as e:  # noqa
-        chk.notes.append(f"source programs: extraction failed, skipped ({e!r})")
+        chk.cov["source_programs_tie"] = f"BROKEN TIE: extraction failed ({e!r})"
+        chk.notes.append(f"source programs: BROKEN TIE - extraction failed ({e!r})")
     # the dispatch expressions (closure, descriptor, current_backend, get_backend, use_dynamic_dispatch, import list)
     dsrc_id = None
     try:
@@ -3253,7 +3717,13 @@ def run(chk):
                        "while another thread looks EVERY dispatched name up (model: window iff the loop has the delattr). METADATA: 100 (thorough 1000) random histories per manager of selections, use_dynamic_dispatch, captures and calls of "
                        "f.__wrapped__ / f for the closure of context / outer through the import-time binding and the manager module. INITIALIZE: `import tensorly` in 6 fresh processes under TENSORLY_BACKEND / TENSORLY_TENALG_BACKEND in {unset, default name, other loadable name, "
                        "unlisted name, wrong case, listed-but-not-importable}: outcome (imported / warned / import failed), get_backend() in the importing thread and in a new "
-                       "thread, _default_backend compared with the model's `initialize`. Non-trivial = at least two threads act and a context is entered; distinct key = (mode, "
+                       "thread, _default_backend compared with the model's `initialize`. INTERRUPTED / RAISING CALLS (Model/BackendAbort.v), per manager: 20 call shapes (set / enter by "
+                       "instance and by name, global / local, from a fresh thread and from one holding a selection; exit of a global / local context, normal / by exception, "
+                       "with and without a change of the shared default by another thread in between) x an exception raised from a trace function before source line "
+                       "0..12 of the call (all lines of set_backend / backend_context / current_backend / the cache look-up), each followed by 4 atomic operations; 6 histories "
+                       "with the NAMELESS instance Backend() / TenalgBackend() (set / enter, both flavours, exit of a later non-local context); 150 (thorough 3000) random "
+                       "scenarios of both kinds; after the call and after every follow-up EVERY thread reports get_backend() (or that it raises) and the identity of "
+                       "current_backend(); Coq: the state is that of SOME prefix of the call's acts (abort), resp. exactly exec_nl's. Non-trivial = at least two threads act and a context is entered; distinct key = (mode, "
                        "main-thread role, history). At most 40 disagreeing cases per shard of 2500 are listed")
     for b in broken:
         chk.broken.append({"what": "correspondence corr:C17 shard not evaluated", "detail": b})
@@ -3275,6 +3745,11 @@ def run(chk):
                              {"manager": "tensorly.tenalg" if m else "tensorly.backend", "programs [set, enter, exit, exit-by-exception] x [global, local]": progs})
             continue
         mode, main_actor, nthreads, h, tag = meta[i]
+        if mode in (18, 19):
+            chk.disagreement("corr:C17 abort (Model/BackendAbort.v: the state after an interrupted call is that of no prefix of its acts, or a call that "
+                             "raises by itself - nameless instance - leaves another state / outcome than exec_nl)",
+                             {"mode": mode, "scenario": abort_to_json(h)})
+            continue
         if mode in (16, 17):
             chk.disagreement("corr:C17 closure metadata (Model/BackendDispatch.v wst / wop vs f.__wrapped__ of the dispatch closures)",
                              {"mode": mode, "history": dhist_to_json(h)})
@@ -3308,13 +3783,55 @@ def run(chk):
                        "contexts of the two managers opened by one thread are left innermost-first (they are `with` blocks on one Python stack), except in the "
                        "group mixed-nonlifo-contexts, which drives cm.__enter__ / cm.__exit__ directly",
                        "CPython threads; threading.local storage of a fresh thread is empty"]
-    chk.trusted = ["marker methods/attributes on harness backend subclasses and on the stock instances reveal the executing object of a dispatched call",
+    chk.cov["name_read_before_first_write"] = [bool(getattr(M, "_name_first", 0)) for M in Mgr.both()]
+    chk.trusted = ["interrupted calls: an exception raised from a sys.settrace trace function at a source line stands for any exception arriving between "
+                   "two attribute-level steps (line granularity; the tracer is removed by the interpreter once it has raised, so the finally clause of a "
+                   "context interrupted inside its try block runs uninterrupted)",
+                   "marker methods/attributes on harness backend subclasses and on the stock instances reveal the executing object of a dispatched call",
                    "the harness appends its two backend names to the manager's available_backend_names so that they can be selected by name",
                    "dispatch routes: marker methods (context, trace / outer, inner) and marker properties (complex64, int64) on the harness backend classes and "
                    "in the instance dict of the stock instances identify the object a call ran on / an attribute came from; tensorly.int64 (bound at import, "
                    "before the marking) is recognised as the stock numpy backend's value",
                    "use_static_dispatch / use_dynamic_dispatch are driven inside the fork-pool processes only; use_dynamic_dispatch is called after every dispatch history"]
-    return chk.finish()
+    return finish_with_local_known(chk)
+
+
+def clf_nameless_instance(f):
+    """the failing input is a call that raised by itself (kind 0) with the NAMELESS instance as its selector, or the exit of a
+    context whose saved backend is that instance (it was selected thread-locally before), and the predicate is the rejection clause"""
+    try:
+        inp = f["inputs"]
+        sc = abort_from_json(inp["scenario"])
+        if f.get("predicate") != "C17_rejection" or sc[3] != 0:
+            return False
+        ops = list(sc[1]) + [sc[2]]
+        return any(o[0] != "exit" and o[3] == NAMELESS for o in ops)
+    except Exception:  # noqa
+        return False
+
+
+CLASSIFIERS = {"nameless_instance_rejected_after_write": clf_nameless_instance}
+
+
+def finish_with_local_known(chk):
+    """chk.finish with the entries of known_findings.d/C17.json added to those of the merged known_findings.json (which the
+    coordinator regenerates from the .d files; until then a new entry would be invisible to common.load_known)"""
+    import json
+    orig = C.load_known
+
+    def load(prop):
+        known = orig(prop)
+        try:
+            extra = json.load(open(os.path.join(C.VERIF, "known_findings.d", "C17.json"))).get("findings", [])
+        except Exception:  # noqa
+            extra = []
+        ids = {k.get("id") for k in known}
+        return known + [dict(e, property="C17") for e in extra if e.get("id") not in ids]
+    C.load_known = load
+    try:
+        return chk.finish(CLASSIFIERS)
+    finally:
+        C.load_known = orig
 
 
 def replay(payload):
@@ -3322,6 +3839,19 @@ def replay(payload):
         print("replay file names a broken theorem/correspondence, not an input:", payload.get("theorem_or_correspondence"))
         return 1
     inp = payload["inputs"]
+    if int(inp["mode"]) in (18, 19):
+        sc = abort_from_json(inp["scenario"])
+        Ms = Mgr.both()
+        for M in Ms:
+            M.reset()
+        r = drive_abort(sc)
+        fails = predicates_abort(sc, r)
+        for M in Ms:
+            M.reset()
+            M.unmark()
+        for f in fails[:5]:
+            print("replay:", f)
+        return 1 if fails else 0
     if int(inp["mode"]) in (16, 17):
         m = int(inp["mode"]) - 16
         h = dhist_from_json(inp["history"])
